@@ -240,6 +240,12 @@ def rule_guard_ucycle(P):
     if not acyc:
         raise AnalysisError("cfg.py::CFG.unarycycleremove: acyclic-set insertion not found")
     aset = acyc[0].func.value.id
+    bk = None
+    for n in walk_live(f.node):
+        if isinstance(n, ast.Assign) and isinstance(n.targets[0], ast.Name) and norm(n.value) == f"{gname}.buckets":
+            bk = n.targets[0].id
+    if bk is None:
+        raise AnalysisError("cfg.py::CFG.unarycycleremove: SCC bucket map not found")
     for c in acyc:
         facts = W.guard_facts(c)
         x = norm(c.args[0])
@@ -262,13 +268,13 @@ def rule_guard_ucycle(P):
             t = ft.test
             if not ft.pol and isinstance(t, ast.BoolOp) and isinstance(t.op, ast.And):
                 parts = [norm(v) for v in t.values]
-                if f"len({rv}.body) == 1" in parts and any("bucket" in p and f"{rv}.body[0]" in p and f"{rv}.head" in p and "==" in p for p in parts):
+                if f"len({rv}.body) == 1" in parts and any(bk in p and f"{rv}.body[0]" in p and f"{rv}.head" in p and "==" in p for p in parts):
                     dom = True
             if ft.pol and norm(t) == f"{rv}.head in {aset}":
                 dom = True
             if ft.pol and isinstance(t, ast.BoolOp) and isinstance(t.op, ast.Or):
                 parts = [norm(v) for v in t.values]
-                if f"len({rv}.body) != 1" in parts and any("bucket" in p and "!=" in p for p in parts):
+                if f"len({rv}.body) != 1" in parts and any(bk in p and "!=" in p for p in parts):
                     dom = True
         head = norm(c.args[1])
         renamed = head == f"bot({rv}.head)" or any(ft.pol and norm(ft.test) == f"{rv}.head in {aset}" for ft in facts)
